@@ -190,7 +190,13 @@ def _is_str(t):
     return t.op == "const" and isinstance(t.a[0], str)
 
 
+def _slice_is(t, lo, hi):
+    return t.op == "slice" and len(t.a) == 3 and ((lo is None and is_const(t.a[0], None)) or (lo is not None and is_const(t.a[0], lo))) and ((hi is None and is_const(t.a[1], None)) or (hi is not None and is_const(t.a[1], hi))) and is_const(t.a[2], None)
+
+
 def binop(op, l, r):
+    if op == "-" and l.op == "sub" and r.op == "sub" and l.a[0] is r.a[0] and _slice_is(l.a[1], 1, None) and _slice_is(r.a[1], None, -1):
+        return call(ext("np.diff"), (l.a[0],))  # x[1:] - x[:-1] is np.diff(x) (along the first axis; the only axis of a 1-d x)
     if op == "+" and (_is_str(l) or _is_str(r)):
         # text concatenation: two literals fold, and the operands keep their order
         if _is_str(l) and _is_str(r):
@@ -429,6 +435,8 @@ def call(fn, args=(), kw=()):
         return call(fn, (args[0],), (("axis", args[1]),) + tuple(kw))  # np.min(x, 1) is np.min(x, axis=1)
     if name == "np.all" and len(args) == 1 and not kw and args[0].op == "call" and callee_name(args[0].a[0]) == "np.isclose":
         return call(ext("np.allclose"), args[0].a[1], args[0].a[2])  # np.isclose(a, b, ..).all() is np.allclose(a, b, ..)
+    if name == "np.diff" and len(args) == 1 and len(kw) == 1 and kw[0][0] == "axis" and is_const(kw[0][1], 0):
+        return call(fn, args, ())  # np.diff(x, axis=0): the first axis, as for the slice difference above
     if name == "np.arange" and len(args) == 2 and not kw and is_const(args[0], 0):
         return call(fn, (args[1],), ())  # np.arange(0, n) is np.arange(n)
     if name == "np.full" and len(args) == 2 and args[1].op == "const" and not isinstance(args[1].a[0], bool) and isinstance(args[1].a[0], float) and args[1].a[0] in (0.0, 1.0) and not any(k_ == "dtype" for k_, _ in kw):
